@@ -349,6 +349,7 @@ def makeMachine() -> Callable[[_Core], _Client]:
     @pep614(Init.upon(_Client.stop).to(Stopped))
     @pep614(Stopped.upon(_Client.stop).to(Stopped))
     def immediateStop(c: _Client, s: _Core) -> Deferred[None]:
+        s.cancelConnectWaiters()
         return succeed(None)
 
     @pep614(Connecting.upon(_Client.stop).to(Disconnecting))
